@@ -4,8 +4,10 @@
 //!
 //! case file:   `<id>|a b c;d e f;...`      (one case per line, ops separated by `;`)
 //! output:      `<id>.<k>|x y z`            (one line per observation)
-#![allow(dead_code)]
+#![allow(dead_code, dangerous_implicit_autorefs, unused_unsafe, static_mut_refs)]
 mod layout;
+mod mech;
+mod tok;
 mod shapes;
 mod talloc;
 
@@ -59,6 +61,7 @@ fn main() {
         };
         let obs: Vec<Vec<u64>> = match stream {
             "layout" => layout::run_case(&ops),
+            "mech" => mech::run_case(&ops),
             _ => {
                 eprintln!("unknown stream {}", stream);
                 std::process::exit(2);
